@@ -1,0 +1,8 @@
+//go:build !verif
+
+// Package verifhook provides the hook points used by the verification harness
+// in /verif.  Without the build tag "verif" every call is an empty function.
+package verifhook
+
+// Point marks a step of interest; a no-op in normal builds.
+func Point(label string, kv ...any) {}
